@@ -184,3 +184,9 @@ func TestC11SharedPool(t *testing.T) {
 
 func TestC03Multi(t *testing.T) { RunProp(t, "C03", "interleaved-readers", genMultiReadCase, checkC03Multi) }
 func TestC01Multi(t *testing.T) { RunProp(t, "C01", "interleaved-readers", genMultiReadCase, checkC03Multi) }
+
+// C02's clause on PreparedMessages (frames built once per variant and reused on
+// every connection they fit) is judged by the C19 machinery on shared messages.
+func TestC02Prepared(t *testing.T) {
+	RunProp(t, "C02", "prepared-shared", func(rt *rapid.T) PrepCase { return genPrepCase(rt, false) }, checkC19)
+}
